@@ -447,6 +447,48 @@ func runSet(res *vh.Result, cases *vh.Cases, size int, ops []setOp, model bool) 
 		}
 		return best.v, true
 	}
+	// the discipline the theorem C31_find_is_highest asks of a history (it holds whenever the hints are valid):
+	// equal String() => equal (type, major); a FindByString text equal to a hint's String() parses to that (type, major)
+	var hs []hint.Hint
+	var texts []string
+	allValid := true
+	for _, op := range ops {
+		switch op.Op {
+		case "add", "find":
+			hs = append(hs, hint.NewHint(hint.Type(op.Type), util.EnsureParseVersion(op.Ver)))
+		case "findstr":
+			texts = append(texts, op.S)
+			if p, err := hint.ParseHint(op.S); err == nil {
+				hs = append(hs, p)
+			}
+		}
+	}
+	disciplined := true
+	for _, a := range hs {
+		if a.IsValid(nil) != nil {
+			allValid = false
+		}
+		for _, b := range hs {
+			if a.String() == b.String() && (a.Type() != b.Type() || a.Version().Major() != b.Version().Major()) {
+				disciplined = false
+			}
+		}
+		for _, t := range texts {
+			if a.String() == t {
+				if p, err := hint.ParseHint(t); err != nil || p.Type() != a.Type() || p.Version().Major() != a.Version().Major() {
+					disciplined = false
+				}
+			}
+		}
+	}
+	if disciplined {
+		res.Dist("histories_disciplined")
+	} else {
+		res.Dist("histories_undisciplined(model only)")
+		if allValid {
+			res.Fail("valid-hints-not-disciplined", "a history of valid hints has two hints with the same String() and different (type, major), or a hint whose String() does not parse back to it", replay{Kind: "set", Size: size, Ops: ops})
+		}
+	}
 	for i, op := range ops {
 		rp := replay{Kind: "set", Size: size, Ops: ops[:i+1], At: i}
 		switch op.Op {
@@ -466,7 +508,7 @@ func runSet(res *vh.Result, cases *vh.Cases, size int, ops []setOp, model bool) 
 			v, found := st.Find(h)
 			wv, wfound := expect(h)
 			res.Count(fmt.Sprintf("%v@%d", ops, i), wfound)
-			if found != wfound || (found && v != wv) {
+			if disciplined && (found != wfound || (found && v != wv)) {
 				res.Fail("find-not-highest", fmt.Sprintf("Find(%q) = (%d,%v), highest registered entry with the same type and major is (%d,%v)", h, v, found, wv, wfound), rp)
 			}
 			coqOps = append(coqOps, "OFind "+coqSHint(h))
@@ -487,7 +529,7 @@ func runSet(res *vh.Result, cases *vh.Cases, size int, ops []setOp, model bool) 
 			} else if err == nil {
 				wv, wfound := expect(p)
 				res.Count(fmt.Sprintf("%v@%d", ops, i), wfound)
-				if found != wfound || (found && v != wv) {
+				if disciplined && (found != wfound || (found && v != wv)) {
 					res.Fail("find-not-highest", fmt.Sprintf("FindByString(%q) = (%d,%v), highest registered entry with the same type and major is (%d,%v)", op.S, v, found, wv, wfound), rp)
 				}
 			}
